@@ -124,8 +124,7 @@ def evaluate(r, trains, edges, kws, be, rank=(), only=None):
 
 
 def check_state(r, k, masks, task):
-    trains = [lattice.times(m) for m in masks]
-    edges = lattice.edges(k)
+    trains, edges = pairs.trains_edges(k, masks)
     ns = pairs.nspikes(masks)
     evaluate(r, trains, edges, task["kws"], task["backend"], (k, ns))
     if r.states % 499 == 1:
